@@ -227,6 +227,25 @@ def one_model(ctx, imp, tag):
                               '(nothing, when the key is already the requested one)', dict(w, delegation=d, diff=canon.diff(rk, rk2)))
         except Exception as e:
             ctx.violation('C13/rewrite-delegations-raises', f'{type(e).__name__}: {str(e)[:200]}', dict(w, delegation=d, second=True))
+    # a second aggregate model (another site, the same delegation ids - the normal case) partitioned in the same store:
+    # the partitions of the first model are models of their own and stay what they were
+    if tag % 3 == 0 and adms:
+        ctx.count('clause:partitions-survive-another-model')
+        held = {d: (adm.graph_id, canon.graph_snapshot(imp, adm.graph_id)) for d, adm in adms.items()}
+        try:
+            site2 = subgen.gen_site(rng, 'STAR', del_ids, nworkers=1)
+            arm2 = subgen.arm_of(subgen.build(imp, site2), 'as_arm')
+            arm2.generate_adms()
+        except Exception as e:
+            ctx.violation('C13/generate-adms-raises', f'partitioning a second model raised {type(e).__name__}: {str(e)[:200]}', w)
+            return
+        for d, (g0, snap0) in held.items():
+            now = canon.graph_snapshot(imp, g0)
+            if now != snap0:
+                ctx.violation('C13/partition-changed-by-partitioning-another-model', 'each partition is a sub-model of the model it was split '
+                              'from (and stays one when another aggregate model using the same delegation ids is split)',
+                              dict(w, delegation=d, diff=canon.diff(snap0, now)))
+                return
     if tag == 0:
         ctx.sample({'kind': kind, 'script': site.script[:5], 'delegations': dict(list(site.delegations.items())[:3])})
 
